@@ -44,3 +44,37 @@ Definition C10_shape_verdict (w : Z) (out : list Z) : Z :=
   end.
 
 Definition holds_C10_shape (w : Z) (out : list Z) : bool := C10_shape_verdict w out <=? 0.
+
+(* ---------- observation of the link the whole-program proof still lacks ----------
+   The writer passes its nesting counter (_indent) with every white-space run; C10_indent_partial
+   needs that counter to equal the number of blocks and brackets open at the token that follows
+   the run.  [link_mismatches src obs]: obs = (byte offset of a code token in src, the _indent the
+   real writer passed with the run before it); answer = the offsets at which the reference depth
+   differs (or where the reference reader sees no code token).  Informative only: a token in the
+   middle of a line is not constrained by the property text. *)
+Fixpoint code_depths (st : dstate) (off : Z) (ts : list stok) : list (Z * Z) :=
+  match ts with
+  | [] => []
+  | t :: r =>
+    let off' := off + zlen (snd t) in
+    if is_code t then (off, depth_at st t) :: code_depths (depth_after st t) off' r
+    else code_depths st off' r
+  end.
+
+Fixpoint assoc_z (k : Z) (l : list (Z * Z)) : option Z :=
+  match l with
+  | [] => None
+  | (a, b) :: r => if a =? k then Some b else assoc_z k r
+  end.
+
+Definition link_mismatches (src : list Z) (obs : list (Z * Z)) : option (list Z) :=
+  match lex src with
+  | None => None
+  | Some ts =>
+    let ds := code_depths (mk_dstate 0 0) 0 ts in
+    Some (map fst (filter (fun '(off, ind) =>
+                             match assoc_z off ds with
+                             | Some d => negb (d =? ind)
+                             | None => true
+                             end) obs))
+  end.
